@@ -23,10 +23,14 @@ META = {
             'completed, after a failed fetch); an application USE statement (coordinator answers, the driver propagates the keyspace '
             'with one USE per pool, each of them answered / refused / answered with an error / its connection lost / left unanswered); '
             'an EXECUTE of a prepared statement answered UNPREPARED (re-prepare task on the executor, PREPARE answered or refused, '
-            'EXECUTE sent again).  In every state: callbacks+errbacks <= 1 per execution and never both, '
+            'EXECUTE sent again); the same with a re-prepare that fails and more than one UNPREPARED answer per request (every host '
+            'of the plan may answer the EXECUTE UNPREPARED; the PREPARE is answered, answered with an error, its connection is lost '
+            'while it is outstanding, or the connection is lost while the re-prepare task is still queued so that the PREPARE cannot '
+            'be sent; the connection under an EXECUTE may be lost as well), without and with one speculative execution.  In every state: callbacks+errbacks <= 1 per execution and never both, '
             'result() agrees with the delivered outcome, a pair attached after completion fires exactly once, every pair attached '
             'in the course of the history is invoked exactly once per page fetch completed since and sees the same kind of outcome; '
-            'whenever no attempt is outstanding and no task is queued, or nothing at all is enabled, or the client-timeout handler '
+            'whenever no attempt is outstanding and no task of the request (retry, re-prepare, execute-after-prepare) is queued '
+            '- host-down / pool-shutdown / reconnection tasks may still be queued -, or nothing at all is enabled, or the client-timeout handler '
             'of the current fetch has run (and did not re-arm itself, PYTHON-853), the outcome exists - the last clause in particular '
             'when the timeout fires while a retry / re-prepare / re-execute task is still queued on the executor.  '
             'Schedule layer: two attempts outstanding on two connections, answered concurrently (every pair over rows / invalid / '
@@ -51,6 +55,19 @@ def _timeout_owner(timer):
     """the ResponseFuture whose client-timeout handler this connection timer runs, else None"""
     fn = getattr(timer.callback, 'func', timer.callback)
     return getattr(fn, '__self__', None) if getattr(fn, '__name__', '') == '_on_timeout' else None
+
+
+def _own_tasks(st, f):
+    """labels of the queued executor tasks that are continuations of this future (retry, re-prepare, execute after
+    prepare, ...): bound methods of it, directly or through a partial.  Any other queued task (host-down handling, pool
+    shutdown, reconnection) can only reach the future through a request of it that is still outstanding."""
+    out = []
+    for t in st.w.tasks:
+        fns = [t[1]] + [a for a in t[2] if callable(a)]
+        fns += [getattr(x, 'func', None) for x in fns]
+        if any(getattr(x, '__self__', None) is f for x in fns if x is not None):
+            out.append(t[4])
+    return out
 
 
 class H(explore.Harness):
@@ -100,8 +117,19 @@ class H(explore.Harness):
                     for d in p['decisions']:
                         evs.append((('respond', i, kind, d), 0))
             if p.get('faults'):
-                for d in p['decisions']:
+                # a connection lost under a PREPARE never reaches the retry policy: one event, not one per decision
+                for d in (p['decisions'] if pend[i].req['op'] != 'PREPARE' else p['decisions'][:1]):
                     evs.append((('fault', i, d), 0))
+        if p.get('drops') and st.w.tasks:
+            # the connection an execution was last answered on is lost while its continuation (re-prepare, retry)
+            # is still queued on the executor: the continuation finds the pool without a usable connection
+            seen = set()
+            for fi, f in enumerate(st.futures):
+                c = f._connection
+                if (c is not None and not c.is_closed and not c.is_defunct and c.vid not in seen
+                        and not any(q.conn is c for q in pend)):
+                    seen.add(c.vid)
+                    evs.append((('drop', fi), 0))
         if st.w.live_timers():
             evs.append((('timer',), 0))
         for i in range(min(len(st.w.tasks), p.get('task_window', 1))):
@@ -137,6 +165,8 @@ class H(explore.Harness):
                 if q.conn is p.conn:
                     st.server.pending.remove(q)
             p.conn.defunct(OSError(104, 'Connection reset by peer'))
+        elif ev[0] == 'drop':
+            st.futures[ev[1]]._connection.defunct(OSError(104, 'Connection reset by peer'))
         elif ev[0] == 'timer':
             t = st.w.live_timers()[0]
             owner = _timeout_owner(t)
@@ -234,10 +264,11 @@ class H(explore.Harness):
                     part.violation('C14/late-attach', 'pair attached after completion ran %r (outcome was %s)' % (late, want),
                                    {'params': self.params, 'history': hist})
             part.outcome((o.n, 'done' if done else 'open', type(f._final_exception).__name__ if done else ''))
-            if not done and not st.pending() and not st.w.tasks:
+            if not done and not st.pending() and not _own_tasks(st, f):
                 part.violation('C14/no-outcome-when-all-answered',
-                               'every sent request is answered/failed and no task is queued, but the future is incomplete '
-                               '(timers: %r)' % (st.timers_canon(),), {'params': self.params, 'history': hist})
+                               'every sent request is answered/failed and no task of this request is queued, but the future is '
+                               'incomplete (timers: %r, other queued tasks: %r)' % (st.timers_canon(), st.tasks_canon()),
+                               {'params': self.params, 'history': hist})
             if not done and st.timed_out[fi]:
                 part.violation('C14/no-outcome-after-timeout/%s-page' % page,
                                'the client timeout of this fetch has fired (handler returned without re-arming itself) but the '
@@ -274,6 +305,13 @@ def configs(ctx):
                      decisions=['RETRY_NEXT_HOST', 'RETHROW']), 5),
         ('prepared', dict(base, spec=0, prepared=True, kinds=['rows', 'unprepared', 'overloaded'], prepare_kinds=['default', 'invalid'],
                           decisions=['RETRY_NEXT_HOST', 'RETHROW'], faults=False), 7),
+        # a re-prepare that fails, and more than one UNPREPARED answer per request: every host of the plan may answer the
+        # EXECUTE with UNPREPARED; the PREPARE is answered, answered with an error, its connection is lost while it is
+        # outstanding, or the connection is lost before the re-prepare task runs (the PREPARE cannot be sent)
+        ('prepared-fail', dict(base, spec=0, prepared=True, kinds=['rows', 'unprepared'], prepare_kinds=['default', 'invalid'],
+                               decisions=['RETRY_NEXT_HOST'], faults=True, drops=True), 7),
+        ('prepared-fail-spec', dict(base, spec=1, prepared=True, kinds=['rows', 'unprepared'], prepare_kinds=['default'],
+                                    decisions=['RETRY_NEXT_HOST'], faults=True), 6),
     ]
     if ctx.thorough:
         q = [(n, p, d + 2) for n, p, d in q]
@@ -318,7 +356,8 @@ def run(ctx):
                                                          'executions': nexec, 'complete': True}
     ctx.cov['rule'] = ('state = event history replayed on a fresh real Session; non-trivial = distinct canonical state at depth >= 3; '
                        'outcomes = (callbacks run, done?, final exception type); "timeout has fired" = a connection timer whose callback is '
-                       'ResponseFuture._on_timeout of this future ran and left no such timer behind')
+                       'ResponseFuture._on_timeout of this future ran and left no such timer behind; "task of the request" = queued '
+                       'executor task whose callable (or a callable argument, or the func of a partial) is a bound method of this future')
     ctx.assume('handlers are atomic with respect to each other (single-threaded histories)')
     ctx.assume('virtual server answers are well-formed protocol v4 frames')
 
